@@ -191,6 +191,8 @@ class Evaluator:
                 return l * r
             if isinstance(e.op, ast.Sub) and isinstance(l, int) and isinstance(r, int):
                 return l - r
+            if isinstance(e.op, ast.BitOr) and isinstance(l, dict) and isinstance(r, dict):
+                return {**l, **r}
             raise Uninterpretable(f"binop {ast.unparse(e)}")
         if isinstance(e, ast.BoolOp):
             if isinstance(e.op, ast.And):
@@ -315,6 +317,10 @@ class Evaluator:
             name = fn.id
             if name in env and isinstance(env[name], ast.FunctionDef):
                 return self.run_function(env[name], args, kwargs, env)
+            if name in env and callable(env[name]) and not isinstance(env[name], Obj):
+                return env[name](*args, **kwargs)
+            if name in self.globals and isinstance(self.globals[name], ast.FunctionDef):
+                return self.run_function(self.globals[name], args, kwargs, {})
             if name in self.globals and callable(self.globals[name]):
                 return self.globals[name](*args, **kwargs)
             if name == "range":
@@ -411,6 +417,12 @@ class Evaluator:
     def run_function(self, node, args, kwargs, outer):
         env = dict(outer)
         params = [a.arg for a in node.args.args]
+        defaults = node.args.defaults
+        for p, dflt in zip(params[len(params) - len(defaults):], defaults):
+            env[p] = self.ev(dflt, outer)
+        for a, dflt in zip(node.args.kwonlyargs, node.args.kw_defaults):
+            if dflt is not None:
+                env[a.arg] = self.ev(dflt, outer)
         for p, a in zip(params, args):
             env[p] = a
         if node.args.vararg is not None:
